@@ -35,7 +35,7 @@ RULE = ("one seeded PRNG draws script trees (random shapes, balanced, left/right
         "(stream, op line).  Oracles are evaluated on the real code alone.")
 TRUSTED = ["SHA-256 / tagged hash of the model is executable Lean validated against hashlib each run (hash.* streams)",
            "T1/T2 over the raw arithmetic rest on C01's `Lawful (opsSub K)` plus the named assumption that secp256k1 has "
-           "cofactor one (`Secp256k1CofactorOne`); T3 needs no group assumption (`LiftEven (EC.ops C)` is proved)",
+           "cofactor one (`SecpCofactorOne`); T3 needs no group assumption (`LiftEven (EC.ops C)` is proved)",
            "taproot.serialize (command list -> tapscript bytes) is outside this property: leaves are compared as bytes",
            "collision resistance of the tagged hash: soundness is a REDUCTION to an explicit collision / tweak alias"]
 ASSUMPTIONS = ["libsecp256k1's xonly tweak functions are compared with the model, not verified"]
